@@ -1,88 +1,27 @@
 package main
 
 import (
-	"encoding/json"
 	"fmt"
-	"os"
 
 	"git.sr.ht/~rockorager/vaxis"
-	"git.sr.ht/~rockorager/vaxis/vxfw"
-	vlist "git.sr.ht/~rockorager/vaxis/vxfw/list"
+
+	"verif/internal/memcon"
+	"verif/internal/refterm"
+	"verif/internal/vxh"
 )
 
-type item struct{ idx, h int }
-
-func (it *item) HandleEvent(vaxis.Event, vxfw.EventPhase) (vxfw.Command, error) { return nil, nil }
-func (it *item) Draw(ctx vxfw.DrawContext) (vxfw.Surface, error) {
-	return vxfw.NewSurface(5, uint16(it.h), it), nil
-}
-
 func main() {
-	b, _ := os.ReadFile(os.Args[1])
-	var f struct {
-		Violation struct {
-			Case struct {
-				Heights []int
-				Gap     int
-				Gutter  bool
-				W, H    int
-				Ops     []struct {
-					Op string
-					A  int
-					B  []int
-				}
-			}
+	for _, inband := range []bool{true, false} {
+		sess, err := vxh.Start(40, 16, refterm.Caps{Unicode: true, RGB: true, Sync: true, InBand: inband, TextArea: true, KittyGfx: true, Sixel: true}, vaxis.Options{}, func(t *refterm.Terminal, c *memcon.Console) {
+			t.CellW, t.CellH = 10, 20
+		})
+		if err != nil {
+			panic(err)
 		}
-	}
-	json.Unmarshal(b, &f)
-	c := f.Violation.Case
-	heights := c.Heights
-	d := &vlist.Dynamic{Gap: c.Gap, DrawCursor: c.Gutter}
-	d.Builder = func(i uint, cursor uint) vxfw.Widget {
-		if int(i) >= len(heights) {
-			return nil
+		evs, _ := sess.Sync()
+		for _, e := range evs {
+			fmt.Printf("%T %+v\n", e, e)
 		}
-		return &item{int(i), heights[i]}
-	}
-	for i, o := range c.Ops {
-		switch o.Op {
-		case "next":
-			d.NextItem()
-		case "prev":
-			d.PrevItem()
-		case "key-j":
-			d.CaptureEvent(vaxis.Key{Keycode: 'j', Text: "j"})
-		case "key-up":
-			d.CaptureEvent(vaxis.Key{Keycode: vaxis.KeyUp})
-		case "set-cursor":
-			if len(heights) > 0 {
-				d.SetCursor(uint(o.A % len(heights)))
-			}
-		case "set-cursor-any":
-			d.SetCursor(uint(o.A))
-		case "wheel-down":
-			d.HandleEvent(vaxis.Mouse{Button: vaxis.MouseWheelDown}, vxfw.TargetPhase)
-		case "wheel-up":
-			d.HandleEvent(vaxis.Mouse{Button: vaxis.MouseWheelUp}, vxfw.TargetPhase)
-		case "resize":
-			c.W, c.H = o.A%13, (o.A/13)%10
-		case "pending":
-			d.SetPendingScroll(o.A)
-		case "set-items":
-			heights = o.B
-			if len(heights) > 0 && int(d.Cursor()) >= len(heights) {
-				d.SetCursor(uint(len(heights) - 1))
-			} else if len(heights) == 0 {
-				d.SetCursor(0)
-			}
-		}
-		s, _ := d.Draw(vxfw.DrawContext{Max: vxfw.Size{Width: uint16(c.W), Height: uint16(c.H)}, Characters: vaxis.Characters})
-		fmt.Printf("%2d %-10s %v cursor=%d off=%d heights=%v kids:", i, o.Op, o.A, d.Cursor(), d.Offset(), heights)
-		for _, k := range s.Children {
-			if it, ok := k.Surface.Widget.(*item); ok {
-				fmt.Printf(" [%d r%d h%d]", it.idx, k.Origin.Row, k.Surface.Size.Height)
-			}
-		}
-		fmt.Println()
+		sess.Close()
 	}
 }
